@@ -5,7 +5,9 @@ package xmpp
 
 import (
 	"fmt"
+	"io"
 	"math/rand"
+	"net"
 	"sort"
 	"strings"
 	"sync"
@@ -32,7 +34,40 @@ type vfC05Case struct {
 	WSStyle string     `json:"wsstyle,omitempty"` // one | several | fragmented
 	Elems   []vfInElem `json:"elems"`
 	GateK   int        `json:"gate_k,omitempty"` // handlers of the first GateK stanzas wait for the next one to start
+	// Logged (client over TCP): "" | "logged" (traffic logger on) | "logged+data-with-eof" (traffic logger on, and the
+	// socket hands the last bytes over together with the end-of-stream error, as io.Reader allows and TLS does)
+	Logged string `json:"logged,omitempty"`
 }
+
+// vfDataWithEOF makes the underlying connection report "n bytes and then the end" in one Read call whenever the end
+// follows the data closely - which io.Reader explicitly permits and crypto/tls does when a close_notify alert
+// arrives in the same segment as the last record.
+type vfDataWithEOF struct {
+	rw   io.ReadWriter
+	conn net.Conn
+	hits *int64
+}
+
+func (d *vfDataWithEOF) Write(p []byte) (int, error) { return d.rw.Write(p) }
+
+func (d *vfDataWithEOF) Read(p []byte) (int, error) {
+	n, err := d.rw.Read(p)
+	if err != nil || n == 0 || n == len(p) {
+		return n, err
+	}
+	d.conn.SetReadDeadline(time.Now().Add(3 * time.Millisecond))
+	n2, err2 := d.rw.Read(p[n:])
+	d.conn.SetReadDeadline(time.Time{})
+	if ne, ok := err2.(net.Error); ok && ne.Timeout() {
+		return n + n2, nil
+	}
+	if err2 != nil {
+		atomic.AddInt64(d.hits, 1)
+	}
+	return n + n2, err2
+}
+
+var vfC05DataWithEOF int64
 
 func vfGenInbound(r *rand.Rand, n int, ns string, allowSMAnswer bool, tag string) []vfInElem {
 	var out []vfInElem
@@ -175,6 +210,18 @@ func vfC05RunClientTCP(cs *vfC05Case) vfC05Result {
 	if err != nil {
 		res.connectErr = err
 		return res
+	}
+	if cs.Logged != "" {
+		c.transport.LogTraffic(io.Discard) // what NewClient does with Config.StreamLogger
+		if cs.Logged == "logged+data-with-eof" {
+			c.PostConnectHook = func() error { // runs inside Connect, before the receive loop exists
+				t := c.transport.(*XMPPTransport)
+				if sl, ok := t.readWriter.(*streamLogger); ok {
+					sl.socket = &vfDataWithEOF{rw: sl.socket, conn: t.conn, hits: &vfC05DataWithEOF}
+				}
+				return nil
+			}
+		}
 	}
 	gate2 := make(chan struct{})
 	var gateOnce sync.Once
@@ -631,6 +678,7 @@ func TestVf_C05(t *testing.T) {
 		"randomly segmented, for Client over TCP (ending with sentinel / FIN / RST; gate cases prove concurrent routing), Component over TCP (order asserted) and Client over WebSocket (one stanza per message, several per message, fragmented frames); "+
 		"oracle: multiset of routed ids == sent, <a/> count == <r/> count; non-trivial = case with >=1 stanza fully accounted for, distinct by (mode, seed, handler-entry order)")
 	defer run.Close()
+	defer func() { run.Count("reads_returning_data_together_with_the_end", atomic.LoadInt64(&vfC05DataWithEOF)) }()
 	var rc vfC05Case
 	if run.ReplayCase(&rc) {
 		for i := 0; i < 5; i++ {
@@ -649,6 +697,7 @@ func TestVf_C05(t *testing.T) {
 			cs.Mode = "client-tcp"
 			cs.SM = r.Intn(2) == 0
 			cs.End = []string{"sentinel", "sentinel", "fin", "rst"}[r.Intn(4)]
+			cs.Logged = []string{"", "logged", "logged+data-with-eof"}[r.Intn(3)]
 			cs.Gate = r.Intn(3) == 0 && cs.End != "rst" // after a reset the second stanza may never arrive
 			if cs.Gate {
 				cs.GateK = []int{1, 2, 8, 33, 40, 100}[r.Intn(6)]
